@@ -107,6 +107,7 @@ type Run struct {
 	brFailed    map[string]int
 	brAttempts  map[string]int
 	draDouble   bool // the scheduler's claim cache held one device under two claims at some point of this run
+	crashAt, schedCalls, schedEpoch int // scheduler crash after the crashAt-th mutating call of the current cycle
 	draInconsistent bool // claim cache and allocated-device set of the scheduler disagreed at some point of this run
 }
 
@@ -179,6 +180,19 @@ func (r *Run) OnSessionClose(ssn *framework.Session) {
 func (r *Run) decide(c *Call, nth int) string {
 	if c.Resource == "events" {
 		return ""
+	}
+	if r.crashAt > 0 && c.Actor == "scheduler" {
+		// the scheduler process dies after its crashAt-th mutating API call of this cycle: nothing it tries later has an effect
+		r.API.mu.Lock()
+		r.schedCalls++
+		n := r.schedCalls
+		r.API.mu.Unlock()
+		if n > r.crashAt {
+			r.API.mu.Lock()
+			r.fired["scheduler crash mid-cycle (calls lost)"]++
+			r.API.mu.Unlock()
+			return "swallow"
+		}
 	}
 	for i := range r.S.Faults {
 		f := &r.S.Faults[i]
@@ -305,6 +319,16 @@ func (r *Run) afterOp(op Op) {
 func (r *Run) apply(op Op) {
 	switch op.Kind {
 	case "cycle":
+		r.crashAt, r.schedCalls = 0, 0
+		if strings.HasPrefix(op.Arg, "crash:") {
+			fmt.Sscanf(op.Arg, "crash:%d", &r.crashAt)
+		}
+		defer func() {
+			if r.crashAt > 0 {
+				r.restartScheduler()
+			}
+			r.crashAt = 0
+		}()
 		r.cycle++
 		r.API.mu.Lock()
 		r.API.Cycle = r.cycle
@@ -586,4 +610,25 @@ func goid() int64 {
 	}
 	id, _ := strconv.ParseInt(f[1], 10, 64)
 	return id
+}
+
+// restartScheduler: the scheduler process crashed; a new incarnation starts from nothing but the API state (new cache,
+// new informers, new action objects). Leftover goroutines of the dead incarnation (evict workers, status updater) can
+// no longer change anything.
+func (r *Run) restartScheduler() {
+	old := r.Sched
+	r.API.mu.Lock()
+	r.API.Dead[old.Actor] = true
+	r.API.mu.Unlock()
+	old.Stop()
+	synctest.Wait()
+	r.API.Flush()
+	r.schedEpoch++
+	nu := NewSchedActor(r.API, r.S.Config, r, fmt.Sprintf("scheduler#%d", r.schedEpoch+1))
+	nu.Obs.mu.Lock()
+	nu.Obs.Decisions = append([]Decision(nil), old.Obs.Decisions...)
+	nu.Obs.mu.Unlock()
+	r.Sched = nu
+	synctest.Wait()
+	r.Probe("scheduler_restarted_after_crash")
 }
